@@ -1,10 +1,11 @@
 #!/usr/bin/env python3
-"""import_seeded.py <property> <worktree> <n> "<needs>" "<confirm line>" : copy an agent's change into /verif/seeded/."""
+"""import_seeded.py <property> <worktree> <n> "<needs>" "<confirm line>" [features] [dst number] : copy an agent's change into /verif/seeded/."""
 import json, os, shutil, sys
 prop, wt, n, needs, confirm = sys.argv[1:6]
 feat = sys.argv[6] if len(sys.argv) > 6 else ""
 src = os.path.join(wt, "seeded", n)
-dst = f"/verif/seeded/{prop}-{n}"
+dstn = sys.argv[7] if len(sys.argv) > 7 else n
+dst = f"/verif/seeded/{prop}-{dstn}"
 os.makedirs(dst, exist_ok=True)
 for f in ("patch.diff", "demo.rs", "notes.md"):
     if os.path.exists(os.path.join(src, f)):
